@@ -207,3 +207,57 @@ def total_on_lf_strings(src, flags: int = 0):
     else:
         return None
     return chars >= frozenset(range(256)) - {10}
+
+
+def quadratic_scan_witness(src, flags: int = 0):
+    """For a pattern used with an UNANCHORED scan (search / finditer /
+    findall / sub / split): a character c such that the pattern can start at
+    c, then runs an unbounded repeat whose class also contains c, and then
+    still needs something the run of c does not supply.  On the input c*n the
+    engine starts a match at every position and each attempt scans to the end
+    before failing: n*(n+1)/2 steps.  Returns c (an int / code point) or None
+    (no such shape recognised: not a proof of linearity)."""
+    import re._parser as sp
+    import re._constants as sc
+    try:
+        items = list(sp.parse(src, flags))
+    except Exception:
+        return None
+    if not items or (items[0][0] is sc.AT):
+        return None                       # anchored
+    def chars(op, av):
+        if op is sc.LITERAL:
+            return frozenset({av})
+        if op is sc.NOT_LITERAL:
+            return frozenset(range(256)) - {av}
+        if op is sc.IN:
+            return class_set(av)
+        if op is sc.ANY:
+            return frozenset(range(256)) - {10}
+        return None
+    first = chars(*items[0])
+    if first is None:
+        return None
+    # skip further fixed-width single-character items
+    i = 1
+    while i < len(items) and items[i][0] in (sc.LITERAL, sc.IN,
+                                             sc.NOT_LITERAL, sc.ANY):
+        i += 1
+    if i >= len(items) or items[i][0] not in (sc.MAX_REPEAT, sc.MIN_REPEAT):
+        return None
+    lo, hi, sub = items[i][1]
+    sub = list(sub)
+    if hi is not sc.MAXREPEAT or len(sub) != 1:
+        return None
+    rep = chars(*sub[0])
+    if rep is None:
+        return None
+    rest = items[i + 1:]
+    if not rest:
+        return None                       # nothing required afterwards
+    need = chars(*rest[0]) if rest[0][0] in (sc.LITERAL, sc.IN,
+                                             sc.NOT_LITERAL, sc.ANY) else None
+    for c in sorted(first & rep):
+        if need is None or c not in need:
+            return c
+    return None
